@@ -98,6 +98,8 @@ func TestSim(t *testing.T) {
 	synctest.Test(t, func(t *testing.T) {
 		w := k.Boot(spec)
 		w.KeepLog = os.Getenv("VERIF_LOG") != ""
+		w.DebugDraws = os.Getenv("VERIF_DEBUG_DRAWS") != ""
+		w.DebugY = os.Getenv("VERIF_DEBUG_Y") != ""
 		r := h.NewRun(w)
 		finish := func() {
 			res := result(r, rtSeed)
